@@ -94,6 +94,8 @@ def _ops(other_grid):
     op("concat(t)", lambda x: xr.concat([x, x], "t"))
     op("copy(deep=False)", lambda x: x.copy(deep=False))
     op("copy(deep=True)", lambda x: x.copy(deep=True), deep=True)
+    op("copy(deep=True,data=)", lambda x: x.copy(deep=True, data=np.asarray(x.values) * 2), deep=True)
+    op("copy(data=)", lambda x: x.copy(data=np.asarray(x.values) + 1), deep=True)  # copy() is deep by default
     op("copy.copy", lambda x: _copy.copy(x))
     op("copy.deepcopy", lambda x: _copy.deepcopy(x), deep=True)
     # uxarray's own operations
@@ -269,10 +271,10 @@ def selftest_case(tier):
 
 
 def warmup(tier):
-    for f in (39, 42, 43, 44, 45, 46, 47, 48):
+    for f in (41, 44, 45, 46, 47, 48, 49, 50):
         run_case({"mesh": "mixedpatch", "start": 0, "first": f, "depth": 1})
-    run_case({"mesh": "mixedpatch", "start": 3, "first": 46, "depth": 1})
-    run_case({"mesh": "mixedpatch", "start": 6, "first": 41, "depth": 1})
+    run_case({"mesh": "mixedpatch", "start": 3, "first": 48, "depth": 1})
+    run_case({"mesh": "mixedpatch", "start": 6, "first": 43, "depth": 1})
 
 
 def run(ctx):
